@@ -30,6 +30,19 @@ def run(ctx):
     common.parse_text_corr(ctx, 'wcparse text (case/platform flags)', fsets, quick_len=3, thorough_len=4,
                            extra_patterns=['Ab', 'aB*', '[a-c]X', 'a\\\\b', 'a\\\\\\\\b', 'A/b\\\\c', '\\\\\\\\a/**'], brackets=False, groups=not ctx.quick)
 
+    # Windows drive / UNC prefixes: the scanner itself, and the parser text on patterns that start with one
+    import itertools
+    dtoks = ['\\\\', '/', 'a', 'c:', 'C:', '?', '.', '*', 'unc', 'UNC', 'global', 'GLOBAL', 'x', 'srv', 'sh', '//', '\\', '[ab]', '@(a|b)', '**', ':', '\n', '$', 'ſ:', 'K:']
+    dpats = set(''.join(t) for n in range(0, 5) for t in itertools.product(['\\', '/', 'a', ':', '?', '.'], repeat=n))
+    for _ in range(6000 if ctx.quick else 60000):
+        dpats.add(''.join(rng.choice(dtoks) for _ in range(rng.randint(1, 9))))
+    dpats = sorted(dpats)
+    ctx.corr('_get_win_drive (regex text, plain text, slash, end)', corr.corr_windrive(dpats))
+    ctx.corr('wcparse text (Windows rules, drive and UNC prefixes)',
+             corr.corr_parse([p for p in dpats if '\n' not in p][:: 2 if ctx.quick else 1],
+                             [F('FORCEWIN', 'PATHNAME'), F('FORCEWIN', 'PATHNAME', 'EXTMATCH', 'GLOBSTAR'), F('FORCEWIN', 'PATHNAME', 'CASE', 'REALPATH'),
+                              F('FORCEWIN', 'PATHNAME', '_NOABSOLUTE', 'MATCHBASE'), F('FORCEWIN', 'PATHNAME', '_TRANSLATE', 'EXTMATCH', 'CASE'), F('FORCEWIN')]))
+
     evals = 0
     nontriv = set()
 
